@@ -199,6 +199,17 @@ func Syscall6(trap, a1, a2, a3, a4, a5, a6 uintptr) (r1, r2 uintptr, err Errno) 
 			return ^uintptr(0), 0, e
 		}
 		return 0, 0, 0
+	case SYS_MMAP:
+		// MAP_FIXED|MAP_SHARED of a file at an address inside an existing reservation: the kernel
+		// places it exactly there (or fails)
+		if vkernel.K.Cfg.AllowAllocFail && vf.Bool("remap.fail") {
+			return ^uintptr(0), 0, syscall.ENOMEM
+		}
+		if !vkernel.IsOpen(int(a5)) {
+			return ^uintptr(0), 0, EBADF
+		}
+		vkernel.K.Log.Remaps++
+		return a1, 0, 0
 	case SYS_EPOLL_WAIT:
 		max := int(a3)
 		var ready [8]vkernel.Ready
